@@ -15,6 +15,7 @@
 import SygmaModel.Proofs.C01Src
 import SygmaModel.Proofs.C01Btc
 import SygmaModel.Proofs.C01Abi
+import SygmaModel.Proofs.C01Relay
 namespace Sygma.C01
 
 section Helpers
@@ -73,9 +74,10 @@ theorem erc20_evm_to_btc (id : Ident) (d : Fungible) (resp : Bytes) (n : Nat) (h
     relay ⟨.erc20, .btc, id, Src.fungible d, resp, n⟩ =
       .ok ⟨id, .btc (effAmount d.amount resp / 10 ^ 10) d.recipient, none⟩ := by
   have he := amountWord_eq d.amount resp hr
-  simp only [relay, source, dest, erc20_src id d resp h hr, ho]
-  have hfit' : effAmount d.amount resp / 10000000000 < 18446744073709551616 := by simpa using hfit
-  simp [btcHandle, he, beToNat_pad32, hfit']
+  have hsrc := erc20_src id d resp h hr
+  rw [ho] at hsrc
+  exact relay_ok (by rw [source_erc20]; exact hsrc)
+    (by rw [dest_btc]; exact btcHandle_ok _ _ _ _ _ (by rw [he, beToNat_pad32]) hfit)
 
 example : (⟨12345678900000000000, List.replicate 42 49, none⟩ : Fungible).WF ∧
     effAmount 12345678900000000000 [] / 10 ^ 10 < 2 ^ 64 := by decide
@@ -96,9 +98,8 @@ theorem sub_to_sub (id : Ident) (d : Fungible) (h : d.WF) :
 
 theorem sub_to_btc (id : Ident) (d : Fungible) (h : d.WF) (hfit : d.amount / 10 ^ 10 < 2 ^ 64) :
     relay ⟨.sub, .btc, id, Src.fungible d, [], 0⟩ = .ok ⟨id, .btc (d.amount / 10 ^ 10) d.recipient, none⟩ := by
-  simp only [relay, source, dest, sub_src id d h]
-  have hfit' : d.amount / 10000000000 < 18446744073709551616 := by simpa using hfit
-  simp [btcHandle, beToNat_pad32, hfit']
+  exact relay_ok (by rw [source_sub]; exact sub_src id d h)
+    (by rw [dest_btc]; exact btcHandle_ok _ _ _ _ _ (by rw [beToNat_pad32]) hfit)
 
 /-! ### ERC721 and permissionless generic (EVM → EVM) -/
 
@@ -145,9 +146,8 @@ theorem btc_to_btc (id : Ident) (sat : Nat) (addr : Bytes) (dst : Nat) (ha : add
     (hfit : sat < 2 ^ 64) :
     relay ⟨.btc, .btc, id, Src.btcText addr dst, [], sat⟩ =
       .ok ⟨⟨id.src, dst, id.nonce, id.rid⟩, .btc sat addr, none⟩ := by
-  simp only [relay, source, dest, btc_src id.src id.nonce id.rid sat addr dst ha hd]
-  have hfit' : sat < 18446744073709551616 := by simpa using hfit
-  simp [btcHandle, beToNat_natToBE, hfit']
+  exact relay_ok (by rw [source_btc]; exact btc_src id.src id.nonce id.rid sat addr dst ha hd)
+    (by rw [dest_btc]; exact btcHandle_ok _ _ _ _ sat (div_rescale sat) hfit)
 
 example : (List.replicate 20 (171 : UInt8)).length = 20 ∧ (2 : Nat) < 256 ∧ 2100000000000000 * 10 ^ 10 < 2 ^ 256 := by decide
 
